@@ -7,6 +7,7 @@ from coreutil import Scenario, events, reads
 from refcodec import server_frame, close_payload
 
 TRUSTED = ['correspondence: harness/world.py run_chain (two connections on one WebSocket object)', 'late finalisation: harness/props/c17.py real_reconnect (kept generators closed / collected at scripted moments) against Model/Reconnect.lean', 'harness/translate.py finalisation-time state-access facts (exitStateReads, onDisconnectOnParam)', 'harness/translate.py attribute-write facts', 'key schedule: harness/props/c17.py key_chain / ctr_nonces (a counter stream served in place of os.urandom) against Model/KeyChain.lean; harness/translate.py initValues (the text of the State.key initialiser)']
+TRUSTED += ['configured objects (custom headers added before / between connections): harness/props/c10.py real_reconf, AnsweringEnv, server_answer (a scripted server that answers the request bytes the socket accepted) - oracle only, not run on the model']
 ASSUMPTIONS = ['oracle is real-vs-real: the second connection on a used object against the first connection on a new object, same server behaviour and same key draw']
 
 def endings(rng):
@@ -114,6 +115,42 @@ def explore_persist_touch(res, tier, rng):
                 break
 
 
+def explore_reconf(res, tier, rng, seed):
+    """the application configures the object between connections: add_header() before the first connect() and BETWEEN connect()s
+    (a refreshed Authorization / Cookie), offered protocols, compress, any URL shape; 2-4 connection attempts on the object, each ending
+    in one of the ways of props/c10.py RECONF_ENDS; a scripted server answers the request it really received (props/c10.py
+    server_answer: first Sec-WebSocket-Key field of the request bytes).  Oracle (real-vs-real, no model: the core line has no custom
+    headers): connection k of the used object == the only connection of a FRESH object that was given the same constructor
+    arguments, the custom headers in force at that moment, the same entropy draw and the same server - request bytes, events, end state."""
+    import props.c10 as c10
+    n = 40 if tier == 'quick' else 800
+    items = [c10.gen_reconf(rng, seed * 100003 + 70000 + i) for i in range(n)]
+    fresh, where = [], []
+    for ci, item in enumerate(items):
+        for k in range(1, len(item['rounds'])):
+            fresh.append(dict(item, headers=c10.reconf_headers(item, k), rounds=[dict(item['rounds'][k], add=[])], k0=k))
+            where.append((ci, k))
+    outs = runner.parallel_map('props.c10', 'real_reconf', items + fresh, chunk=20)
+    used, alone = outs[:len(items)], outs[len(items):]
+    for (ci, k), fr in zip(where, alone):
+        item, ch = items[ci], used[ci]
+        if '__crash__' in ch or '__crash__' in fr:
+            res.crashes.append(ch if '__crash__' in ch else fr); continue
+        prev = item['rounds'][k - 1]['end']
+        res.case(('reconf', json.dumps(item, sort_keys=True), k), nontrivial=True)
+        res.count('reconf_oracle_only_after_' + prev)
+        res.count('reconf_oracle_only_headers_%s' % ('added_between_connects' if item['rounds'][k]['add'] else ('from_before' if c10.reconf_headers(item, k) else 'none')))
+        res.traces_validated += 1
+        got, want = ch['traces'][k], fr['traces'][0]
+        if got != want:
+            a, b = got.split(' '), want.split(' ')
+            at = next((i for i, (x, y) in enumerate(zip(a, b)) if x != y), min(len(a), len(b)))
+            show = lambda t: (bytes.fromhex(t[2:]).decode('latin-1') if t.startswith('W:') and b'HTTP/1.1' in bytes.fromhex(t[2:])[:400] else t)[:900]
+            res.failures.append(dict(cls='stale-state', what='connect #%d on a configured object (previous connection ended: %s; custom headers %s) differs from the same connection on a fresh WebSocket '
+                                     'with the same configuration, at trace token %d' % (k + 1, prev, 'added since' if item['rounds'][k]['add'] else 'unchanged', at),
+                                     input=dict(reconf=item, connect=k), observed=' | '.join(show(t) for t in a[at:at + 3]), expected=' | '.join(show(t) for t in b[at:at + 3])))
+
+
 def ctr_nonces(count):
     """what the counter stream of `key_chain(..., 'ctr')` serves for `count` consecutive os.urandom(16) calls (one sha256 block per call)"""
     import hashlib
@@ -158,7 +195,9 @@ def explore(res, tier, seed, model_ok=True):
     nnext = 6 if tier == 'quick' else 40
     res.rule = ('pairs (previous connection, next connection) on ONE WebSocket object: 30 fixed abnormal endings (abandoned generators finalised only after the next connect() or in the middle of the next connection, at Ready/Text/Ping/Closing/Connected/Poll; mid-header, mid-frame, mid-fragment, mid-UTF-8 sequence, deflate negotiated, while closing, close timeout, server closed, rejected, connect failed, '
                 'request failed, protocol error, abandoned by close/drop/raise/with, ping timeout, timers advanced) + random ones x %d next-connection histories (with timers and reactions); '
-                'oracle: the second connection\'s trace equals the trace of the same history on a fresh object; chains of 80 (quick) / 1500 connect() calls on one object: no Sec-WebSocket-Key is sent twice; non-trivial = every pair; distinct by (ending, next line)') % nnext
+                'oracle: the second connection\'s trace equals the trace of the same history on a fresh object; '
+                'configured objects (oracle only): custom headers added before the first connect() and between connect()s x offered protocols x compress x URL shapes, 2-4 attempts ending in 10 ways, '
+                'a server answering the request it received - connection k == the connection of a fresh object with the current configuration (request bytes included); chains of 80 (quick) / 1500 connect() calls on one object: no Sec-WebSocket-Key is sent twice; non-trivial = every pair; distinct by (ending, next line)') % nnext
     nexts = []
     for i in range(nnext):
         b = gen_core.gen_history(rng, n_steps=rng.randint(2, 7), timers=rng.random() < 0.5, p_good=0.95, key_seed=5 + i)
@@ -231,6 +270,7 @@ def explore(res, tier, seed, model_ok=True):
     explore_reconnect(res, tier, rng, model_ok)
     explore_keys(res, tier, model_ok)
     explore_persist_touch(res, tier, rng)
+    explore_reconf(res, tier, rng, seed)
     res.samples += [dict(previous='mid-fragment', next=scenario_line(nexts[0])[-300:])]
 
 
@@ -349,6 +389,13 @@ def replay(rp):
         r = c16.run_world(inp['persist_touch'])
         for i, (v, d) in enumerate(zip(r['via'], r['direct'])):
             print('connection %d under persist():' % (i + 1), v[-600:]); print('connection %d on its own    :' % (i + 1), d[-600:])
+        return 0
+    if isinstance(inp, dict) and 'reconf' in inp:
+        import props.c10 as c10
+        item, k = inp['reconf'], inp['connect']
+        ch = c10.real_reconf(item)
+        fr = c10.real_reconf(dict(item, headers=c10.reconf_headers(item, k), rounds=[dict(item['rounds'][k], add=[])], k0=k))
+        print('connect #%d on the used object :' % (k + 1), ch['traces'][k][-1500:]); print('same connect on a fresh object:', fr['traces'][0][-1500:])
         return 0
     if isinstance(inp, dict) and 'key_chain' in inp:
         keys = key_chain(tuple(inp['key_chain']))
